@@ -82,6 +82,43 @@ theorem pop_older (o : Ops) (s : MSt) (el : Str) : older (pop o s el).c = older 
               simp [older, hin]
             · exact ⟨rfl, rfl⟩
 
+theorem pushContent_older (c : Core) (tag : Str) (a : List (Str × Str)) (d : Str) (e : Bool) :
+    (pushContent c tag a d e).1.entries = c.entries ∧ (pushContent c tag a d e).1.inentry = c.inentry := ⟨rfl, rfl⟩
+
+theorem updHead_updHead_drop (f g : Entry → Entry) (l : List Entry) : (updHead f (updHead g l)).drop 1 = l.drop 1 := by
+  cases l <;> rfl
+
+theorem popFull_older (o : Ops) (s : MSt) (el : Str) :
+    older (popFull o s el).2.c = older s.c ∧ (popFull o s el).2.c.inentry = s.c.inentry := by
+  unfold popFull
+  split
+  · exact ⟨rfl, rfl⟩
+  · split
+    · exact ⟨rfl, rfl⟩
+    · simp only
+      split
+      · exact ⟨rfl, rfl⟩
+      · split
+        · exact ⟨rfl, rfl⟩
+        · split
+          · exact ⟨rfl, rfl⟩
+          · split
+            · rename_i hin
+              refine ⟨?_, rfl⟩
+              simp only [older, hin, ↓reduceIte]
+              split <;> simp [updHead_updHead_drop]
+            · split
+              · rename_i hin _
+                simp [older, hin]
+              · exact ⟨rfl, rfl⟩
+
+theorem popContent_older (o : Ops) (s : MSt) (k : Str) :
+    older (popContent o s k).2.c = older s.c ∧ (popContent o s k).2.c.inentry = s.c.inentry := by
+  have h := popFull_older o s k
+  unfold popContent
+  simp only [older] at h ⊢
+  exact h
+
 /-- `_start_item` appends a fresh entry; the previously open one (if any) is thereby complete -/
 theorem newEntry_older (s t : Core) (he : t.entries = {} :: s.entries) (hi : t.inentry = true) :
     ∃ pre, older t = pre ++ older s := by
@@ -122,11 +159,19 @@ theorem dispatch_older (s : Core) (h : Str) (attrsD : List (Str × Str)) (c' : C
     · split at hd
       · injection hd with hd; injection hd with h1 _; exact ⟨[], by rw [← h1]; simp⟩
       · split at hd
-        · cases hd
-        · simp only at hd
-          split at hd
-          · injection hd with hd; injection hd with h1 _; exact ⟨[], by rw [← h1]; simp⟩
-          · injection hd with hd; injection hd with h1 _; exact ⟨[], by rw [← h1, setContext_older]; simp⟩
+        · -- `_start_title`: push_content
+          have h1 := (startContent_ok _ _ _ _ _ _ _ hd).1
+          exact ⟨[], by rw [h1]; simp [older, pushContent]⟩
+        · split at hd
+          · -- a plain text-construct element: push_content
+            have h1 := (startContent_ok _ _ _ _ _ _ _ hd).1
+            exact ⟨[], by rw [h1]; simp [older, pushContent]⟩
+          · split at hd
+            · cases hd
+            · simp only at hd
+              split at hd
+              · injection hd with hd; injection hd with h1 _; exact ⟨[], by rw [← h1]; simp⟩
+              · injection hd with hd; injection hd with h1 _; exact ⟨[], by rw [← h1, setContext_older]; simp⟩
 
 theorem endFinish_older (o : Ops) (c : Core) : older (endFinish o c) = older c := rfl
 
@@ -135,6 +180,9 @@ theorem step_older (o : Ops) (s : MSt) (e : MEv) (s' : MSt) (h : mstep o s e = .
   cases e with
   | start tag attrs =>
     simp only [mstep, startTag] at h
+    split at h
+    · cases h
+    simp only [startTag0] at h
     have hs := startPre_older o s.c tag attrs
     cases hd : dispatchCore (startPre o s.c tag attrs).1 (handlerName (startPre o s.c tag attrs).1 tag) (startPre o s.c tag attrs).2 with
     | error w => rw [hd] at h; simp [applyDispatch] at h
@@ -147,6 +195,20 @@ theorem step_older (o : Ops) (s : MSt) (e : MEv) (s' : MSt) (h : mstep o s e = .
       | some el => simp only [applyDispatch, Outcome.ok.injEq] at h; rw [← h]; exact ⟨pre, by rw [hp, hs]⟩
   | stop tag =>
     simp only [mstep, endTag] at h
+    split at h
+    · -- the end tag of the open text construct: pop_content
+      obtain ⟨k, top, rest, _, _, _, hs'⟩ := endContent_ok o s s' _ h
+      rw [hs']
+      refine ⟨[], ?_⟩
+      have hp := popContent_older o s k
+      have ha := afterTitle_frame k (popContent o s k)
+      simp only [endFinish_older, List.nil_append]
+      unfold older at hp ⊢
+      rw [ha.1, ha.2.1]
+      exact hp.1
+    split at h
+    · cases h
+    simp only [endTag0] at h
     split at h
     · injection h with h; rw [← h]; exact ⟨[], by simp [endFinish, older]⟩
     · split at h
